@@ -29,6 +29,15 @@ def run(ck):
             vals[rng.randrange(n)] = C + rng.choice([1, 1, 2, C])
         groups.append({"vals": vals, "C": C, "orc": 0,
                        "calls": [dict(pcall(a, rng.choice(["list", "dict", "valueof"]), extra=False), allot=True) for a in PACKERS]})
+    # barely oversize: the item exceeds a LARGE bin size by one unit (relative excess far below any floating-point tolerance)
+    for C in (2 ** 30, 10 ** 9, 999999937):
+        for extra in (1, 2):
+            for pos in range(3):
+                vals = [rng.randint(0, 9) for _ in range(3)]
+                vals[pos] = C + extra
+                groups.append({"vals": vals, "C": C, "orc": 0,
+                               "calls": [dict(pcall(a, f, extra=False), allot=True) for a in PACKERS for f in ("list", "dict", "valueof")]})
+                ck.cat("barely_oversize")
     ck.rule = ("TLC enumerates every sequence of <=5 values in 0..C+2 containing at least one oversize item (every position and multiplicity); ff, ffd, bf, bfd "
                "and bin-completion called on each as list / dict / names+valueof with all ten output types - every call must raise ValueError; TLC also "
                "enumerates every cbldm call with exactly one invalid argument (bin count, negative item(s), time limit, cardinality bound) over small valid "
